@@ -16,7 +16,7 @@ structure XWF (d : ClassDiagram) : Prop where
   dtIds : (d.dts.map (·.id)).Nodup
   dtNames : (d.dts.map (·.name)).Nodup
   /-- acyclic containment: the fuel of `is_contained_in` / `is_global` is never exhausted -/
-  tree : TreeOk d.containers
+  tree : TreeOk d.containers d.pkgrefs
   /-- acyclic user-type chains: the fuel of the `while S_UDT` loop is never exhausted -/
   chain : DtChainOk d.dts
   /-- every attribute is on the R103 chain of its class (the edit theorems address attributes through the class) -/
@@ -143,14 +143,14 @@ theorem xrename_commutes (c a : Nat) (new : String) (comp : Nat) :
       apply xspec_ext
       · rfl
       · rfl
-      · show ((d.classes.map (rnG c a new)).filter (fun k => containedIn d.containers comp k.parent)).map
+      · show ((d.classes.map (rnG c a new)).filter (fun k => containedIn d.containers d.pkgrefs comp k.parent)).map
             (xclassOf { d with classes := d.classes.map (rnG c a new) }) = _
         rw [List.filter_map, List.map_map]
-        have hpar : ((fun (k : Class) => containedIn d.containers comp k.parent) ∘ rnG c a new) =
-            (fun (k : Class) => containedIn d.containers comp k.parent) := by
+        have hpar : ((fun (k : Class) => containedIn d.containers d.pkgrefs comp k.parent) ∘ rnG c a new) =
+            (fun (k : Class) => containedIn d.containers d.pkgrefs comp k.parent) := by
           funext k; simp only [Function.comp]; unfold rnG Class.mapAttr; split <;> rfl
         rw [hpar]
-        show _ = ((d.classes.filter (fun k => containedIn d.containers comp k.parent)).map (xclassOf d)).map _
+        show _ = ((d.classes.filter (fun k => containedIn d.containers d.pkgrefs comp k.parent)).map (xclassOf d)).map _
         rw [List.map_map]
         apply List.map_congr_left
         intro k hk
@@ -189,38 +189,38 @@ theorem xmoveClass_commutes {d : ClassDiagram} (wf : WF d) (c : Nat) (p : Parent
     rw [happ]
     obtain ⟨l1, l2, hl, hkc, h1, h2⟩ := split_at_key (fun (k : Class) => k.id) wf.clsIds hc
     have hclasses : (xsdSpecChained { d with classes := d.classes.map (mvG c p) } comp).classes =
-        ((l1.filter (fun k => containedIn d.containers comp k.parent)).map (xclassOf d)) ++
-        (if containedIn d.containers comp p then [xclassOf d kc] else []) ++
-        ((l2.filter (fun k => containedIn d.containers comp k.parent)).map (xclassOf d)) := by
-      show ((d.classes.map (mvG c p)).filter (fun k => containedIn d.containers comp k.parent)).map
+        ((l1.filter (fun k => containedIn d.containers d.pkgrefs comp k.parent)).map (xclassOf d)) ++
+        (if containedIn d.containers d.pkgrefs comp p then [xclassOf d kc] else []) ++
+        ((l2.filter (fun k => containedIn d.containers d.pkgrefs comp k.parent)).map (xclassOf d)) := by
+      show ((d.classes.map (mvG c p)).filter (fun k => containedIn d.containers d.pkgrefs comp k.parent)).map
           (xclassOf { d with classes := d.classes.map (mvG c p) }) = _
       rw [List.filter_map, List.map_map]
       have : (xclassOf { d with classes := d.classes.map (mvG c p) } ∘ mvG c p) = xclassOf d := by
         funext k; exact mv_xclassOf k
       rw [this, hl]
       simp only [List.filter_append, List.filter_cons, List.map_append]
-      have e1 : l1.filter ((fun (k : Class) => containedIn d.containers comp k.parent) ∘ mvG c p) =
-          l1.filter (fun k => containedIn d.containers comp k.parent) := by
+      have e1 : l1.filter ((fun (k : Class) => containedIn d.containers d.pkgrefs comp k.parent) ∘ mvG c p) =
+          l1.filter (fun k => containedIn d.containers d.pkgrefs comp k.parent) := by
         apply filter_congr'
         intro k hk
         have : (k.id == c) = false := by simp [h1 k hk]
         simp [mvG, this]
-      have e2 : l2.filter ((fun (k : Class) => containedIn d.containers comp k.parent) ∘ mvG c p) =
-          l2.filter (fun k => containedIn d.containers comp k.parent) := by
+      have e2 : l2.filter ((fun (k : Class) => containedIn d.containers d.pkgrefs comp k.parent) ∘ mvG c p) =
+          l2.filter (fun k => containedIn d.containers d.pkgrefs comp k.parent) := by
         apply filter_congr'
         intro k hk
         have : (k.id == c) = false := by simp [h2 k hk]
         simp [mvG, this]
-      have e3 : ((fun (k : Class) => containedIn d.containers comp k.parent) ∘ mvG c p) kc =
-          containedIn d.containers comp p := by
+      have e3 : ((fun (k : Class) => containedIn d.containers d.pkgrefs comp k.parent) ∘ mvG c p) kc =
+          containedIn d.containers d.pkgrefs comp p := by
         simp [mvG, hkc]
       rw [e1, e2, e3]
       split <;> simp
     have hold : (xsdSpecChained d comp).classes =
-        ((l1.filter (fun k => containedIn d.containers comp k.parent)).map (xclassOf d)) ++
-        (if containedIn d.containers comp kc.parent then [xclassOf d kc] else []) ++
-        ((l2.filter (fun k => containedIn d.containers comp k.parent)).map (xclassOf d)) := by
-      show (d.classes.filter (fun k => containedIn d.containers comp k.parent)).map (xclassOf d) = _
+        ((l1.filter (fun k => containedIn d.containers d.pkgrefs comp k.parent)).map (xclassOf d)) ++
+        (if containedIn d.containers d.pkgrefs comp kc.parent then [xclassOf d kc] else []) ++
+        ((l2.filter (fun k => containedIn d.containers d.pkgrefs comp k.parent)).map (xclassOf d)) := by
+      show (d.classes.filter (fun k => containedIn d.containers d.pkgrefs comp k.parent)).map (xclassOf d) = _
       conv => lhs; rw [hl]
       simp only [List.filter_append, List.filter_cons, List.map_append]
       split <;> simp
@@ -232,7 +232,7 @@ theorem xmoveClass_commutes {d : ClassDiagram} (wf : WF d) (c : Nat) (p : Parent
       intro k hk he
       have hm : k ∈ d.classes := by rw [hl]; simp [hk]
       exact h2 k hk (by rw [wf.kl_inj hm (findClass_mem hc) he, hkc])
-    cases hin : containedIn d.containers comp kc.parent <;> cases hout : containedIn d.containers comp p
+    cases hin : containedIn d.containers d.pkgrefs comp kc.parent <;> cases hout : containedIn d.containers d.pkgrefs comp p
     · dsimp only
       apply xspec_ext
       · rfl
@@ -250,8 +250,8 @@ theorem xmoveClass_commutes {d : ClassDiagram} (wf : WF d) (c : Nat) (p : Parent
       have htw : d.classes.takeWhile (fun x => x.id != c) = l1 := by
         rw [hl]; exact takeWhile_split (fun (k : Class) => k.id) c l1 l2 kc h1 hkc
       have hpos : ((d.classes.takeWhile (fun x => x.id != c)).filter
-          (fun x => containedIn d.containers comp x.parent)).length =
-          ((l1.filter (fun k => containedIn d.containers comp k.parent)).map (xclassOf d)).length := by
+          (fun x => containedIn d.containers d.pkgrefs comp x.parent)).length =
+          ((l1.filter (fun k => containedIn d.containers d.pkgrefs comp k.parent)).map (xclassOf d)).length := by
         rw [htw]; simp
       rw [hpos]
       simp only [if_true, Bool.false_eq_true, if_false, List.append_nil, List.append_assoc, List.singleton_append]
@@ -265,15 +265,15 @@ theorem xmoveClass_commutes {d : ClassDiagram} (wf : WF d) (c : Nat) (p : Parent
       rw [hold, hin]
       simp only [if_true, Bool.false_eq_true, if_false, List.append_nil, List.filter_append, List.filter_cons,
         List.append_assoc, List.singleton_append]
-      have f1 : ((l1.filter (fun k => containedIn d.containers comp k.parent)).map (xclassOf d)).filter
-          (fun s => s.kl != kc.kl) = (l1.filter (fun k => containedIn d.containers comp k.parent)).map (xclassOf d) := by
+      have f1 : ((l1.filter (fun k => containedIn d.containers d.pkgrefs comp k.parent)).map (xclassOf d)).filter
+          (fun s => s.kl != kc.kl) = (l1.filter (fun k => containedIn d.containers d.pkgrefs comp k.parent)).map (xclassOf d) := by
         apply List.filter_eq_self.mpr
         intro s hs
         obtain ⟨k, hk, rfl⟩ := List.mem_map.mp hs
         have := hkl1 k (List.mem_filter.mp hk).1
         simpa [xclassOf] using this
-      have f2 : ((l2.filter (fun k => containedIn d.containers comp k.parent)).map (xclassOf d)).filter
-          (fun s => s.kl != kc.kl) = (l2.filter (fun k => containedIn d.containers comp k.parent)).map (xclassOf d) := by
+      have f2 : ((l2.filter (fun k => containedIn d.containers d.pkgrefs comp k.parent)).map (xclassOf d)).filter
+          (fun s => s.kl != kc.kl) = (l2.filter (fun k => containedIn d.containers d.pkgrefs comp k.parent)).map (xclassOf d) := by
         apply List.filter_eq_self.mpr
         intro s hs
         obtain ⟨k, hk, rfl⟩ := List.mem_map.mp hs
